@@ -24,7 +24,7 @@ MANIFEST = {
 
 REQUIRED = ["KV.C05.estimate_eq_spec", "KV.C05.estimate_eq_spec_tree", "KV.C05.collapse_block_perm", "KV.C05.collapse_stream_eq",
             "KV.C05.prune_stream_fixed", "KV.C05.prune_stream_unfixed_false", "KV.C05.ngram_set", "KV.C05.adjust_stream_eq", "KV.C05.adjust_stream_eq_corpus", "KV.C05.stats_eq",
-            "KV.C05.stats_eq_corpus", "KV.C05.prune_exact", "KV.C05.prune_exact_top", "KV.C05.written_set",
+            "KV.C05.stats_eq_corpus", "KV.C05.prune_exact", "KV.C05.prune_exact_top", "KV.C05.written_set", "KV.C05.written_set1",
             "KV.C05.trueCount_textbook", "KV.C05.adjCount_textbook", "KV.C05.pruned_eq_false_iff",
             "KV.C05.stats_eq_stream", "KV.C05.stats_eq_tree", "KV.C05.stats_eq_unfixed_false", "KV.C05.flush_adjusted_tree",
             "KV.C05.keep_specials_tree", "KV.C05.discounts_eq", "KV.C05.chenGoodman_value", "KV.C05.special_ids"]
@@ -42,9 +42,11 @@ def one_case(ctx, lmplz, dexe, case, wd, flags, tag="c", spec_mode=False):
     ref = L.reference(case)
     ctx.hist("tool.class", t["cls"])
     ctx.hist("order", case["order"])
-    ctx.hist("prune", "none" if case["prune"] is None else ("uni" if case["prune"][0] > 0 else "hi"))
+    ctx.hist("prune", L.prune_kind(case))
     ctx.hist("limit_vocab", case["limit"] is not None)
     # ---- error classes
+    if t["cls"] in ("prune-order", "prune-count", "bad-threshold") and t.get("wrote"):
+        out.append(("oracle", "refusal-wrote", "lmplz refuses the --prune vector (%s) but left an output file" % t["cls"]))
     if ref["cls"] != "ok" or t["cls"] != "ok":
         if ref["cls"] != t["cls"]:
             if ref.get("stats") and L.near_discount_boundary(ref["stats"]):
